@@ -9,7 +9,7 @@
 // txbuilder.Sign (once per signer) -> validation.ValidateTx at the next height. The oracle
 // (oracle.go) is plain arithmetic over the transaction's inputs and outputs.
 //
-// Second part (chain.go): the chain-transaction path (build-chain-transactions: SpendAccountChain /
+// Second part (chain.go): the chain-transaction path (the real handler API.buildTxs of build-chain-transactions: SpendAccountChain /
 // buildBtmTxChain). Enumerated: how many BTM outputs the account holds and on which of its external and
 // change addresses every one of them sits; every transaction of the built chain is signed and validated.
 package main
@@ -155,7 +155,7 @@ func main() {
 	run.Set("distinct_list_shapes", len(shapeCount))
 	run.Set("cases", len(cases))
 	run.Set("distinct_nontrivial", len(nontrivial))
-	run.Set("rule", "two case families. (1) case = (ordered action list, funding-set shape per spent (account, asset/vote) source, placement of the funding outputs + use_unconfirmed flag, which keys sign); lists are ALL sequences of <= max_actions alphabet entries that pass the balance predicate; such a case is non-trivial when the built transaction has >= 2 inputs or at least one change output (selection or change arithmetic was exercised). (2) chain case = (account, number n of BTM outputs with strictly descending amounts, the address of EVERY output, spend mode, placement, signer pair) built through SpendAccountChain as API.buildTxs does: ALL address assignments over {ext/1, ext/2, chg/1, chg/2} for n <= 3 (thorough 5), ALL assignments over {ext/1, chg/1} up to n = 6 (thorough 10), and for n = 14 (thorough 12..26, three merge levels from 14 on) one branch with at most one output on the other branch in every position; spend modes: all outputs needed with change (every layout, both accounts), all outputs needed exactly and about half of the outputs needed (quick: 1-of-1 account and n <= 5; thorough: all non-deep layouts, both accounts); n = 2 also unconfirmed-only and every 2-of-3 signer pair; a chain case is non-trivial when at least one merge transaction was built")
+	run.Set("rule", "two case families. (1) case = (ordered action list, funding-set shape per spent (account, asset/vote) source, placement of the funding outputs + use_unconfirmed flag, which keys sign); lists are ALL sequences of <= max_actions alphabet entries that pass the balance predicate; such a case is non-trivial when the built transaction has >= 2 inputs or at least one change output (selection or change arithmetic was exercised). (2) chain case = (account, number n of BTM outputs with strictly descending amounts, the address of EVERY output, spend mode, placement, signer pair) sent as a JSON request to the real handler API.buildTxs (POST /build-chain-transactions): ALL address assignments over {ext/1, ext/2, chg/1, chg/2} for n <= 3 (thorough 5), ALL assignments over {ext/1, chg/1} up to n = 6 (thorough 10), and for n = 14 (thorough 12..26, three merge levels from 14 on) one branch with at most one output on the other branch in every position; spend modes: all outputs needed with change (every layout, both accounts), all outputs needed exactly and about half of the outputs needed (quick: 1-of-1 account and n <= 5; thorough: all non-deep layouts, both accounts); n = 2 also unconfirmed-only and every 2-of-3 signer pair; plus requests with BTM spend_account actions of BOTH accounts in both request orders x every pair of per-account layouts out of {every {ext/1, chg/1} assignment of 1..2 (thorough 3) outputs, 6 alternating outputs, thorough: 14 alternating outputs} (one output = that account needs no merge transaction); a chain case is non-trivial when at least one merge transaction was built")
 
 	// the real pseudo-HSM (scrypt on every XSign) on a few templates per account kind: byte-identical witnesses
 	hsmCompare(run, g, worlds[0], cases)
@@ -164,7 +164,7 @@ func main() {
 	run.Assume("C27: the enumeration signs through a SignFunc over the same keys held in memory (derive + Sign, password checked like the HSM); the real HSM.XSign is run on a few templates per account kind and must give byte-identical transactions")
 	run.Assume("C27: the account's programs are the ones account.Manager.CreateAddress returned; external recipient programs are built byte-by-byte from the key hash")
 	run.Assume("C27: lists in which a generic spend of an (account, asset) precedes a spend of a particular output of the same (account, asset) are outside the domain (the generic reservation may legitimately take that output first)")
-	run.Assume("C27: the chain path is driven by a copy of the loop of API.buildTxs (spend_account -> account.SpendAccountChain, other actions -> Build, then builder.Build) because package api does not build in this tree; one BTM spend_account action and one control_address action per chain request; the merge transactions' inputs are checked against the wallet outputs and the outputs of earlier transactions of the same chain, consensus acceptance of every transaction is validation.ValidateTx")
+	run.Assume("C27: the chain path is driven through the real handler API.buildTxs (exported by hooks/api/zz_verif_c27.go; package api builds in the verification build because two empty dashboard files are replaced by overlay stubs); the request is JSON text read with httpjson.Read as the server reads a body; chain requests carry one or two BTM spend_account actions (different accounts) and one control_address action; every input of a returned transaction must spend a wallet output or an output of an EARLIER RETURNED transaction; consensus acceptance of every transaction is validation.ValidateTx")
 	run.Assume("C27: one reservation per source: spend_account actions of one account and asset are merged by MergeSpendAction; two veto actions on one account are not merged and are outside the domain (the second reservation can be refused with 'already reserved' although the sum is funded)")
 	cleanup()
 	run.Finish()
